@@ -43,6 +43,8 @@ def check(ctx, rep):
         rule = None
         why = None
         if kind == "panic_fmt" and owner in ("range::BoundSet::satisfies", "<range::BoundSet as std::fmt::Display>::fmt"):
+            if sat_ok.get(owner) is None:
+                continue        # the supporting table was inconclusive (already reported as such)
             if sat_ok.get(owner):
                 rule, why = "D-INV", "unreachable! arm: dead for every (Lower, Upper) shaped BoundSet (INV-LU); no abstract case reaches it"
         elif kind == "unwrap" and owner == "range::Range::any":
@@ -73,11 +75,15 @@ def check(ctx, rep):
             dead = flow.errmode_incomplete_dead_blocks(prog, prog.bodies[owner])
             if s["bb"] in dead and not partial:
                 rule, why = "D-PARTIAL", "only reachable through ErrMode::Incomplete, which winnow raises for Partial streams only"
+            elif entry.get(owner) == "inconclusive":
+                continue
             elif entry.get(owner) == "ok":
                 rule, why = "D-PTR", "pointer difference between the error position and the start of the caller's string (same buffer, later position)"
             else:
                 why = "the subtraction is not a (position - start of the caller's string) difference: %s" % entry.get(owner)
         elif owner.startswith("SemverError::location"):
+            if "inconclusive" in (entry.get("Version::parse"), entry.get("range::Range::parse")):
+                continue
             if entry.get("Version::parse") == "ok" and entry.get("range::Range::parse") == "ok":
                 rule, why = loc_rule(s)
         elif kind == "panic_fmt" and FROM_SIGNED.match(owner):
@@ -203,11 +209,13 @@ def unreachable_arms(prog, env, rep):
                         st, val = run.call(key, [Ptr(Cell(bs)), Ptr(Cell(Formatter()))])
                     n += 1
                     rep.path((key, path_sig(run.interp)))
+                    if good is None and st != "panic":
+                        continue
                     if st == "panic":
                         good = False
                         rep.fail("D-INV", "%s|D-INV|lower=%s upper=%s" % (key, lo, up), "reaches a panic: %s" % val)
                     elif st == "inconclusive":
-                        good = False
+                        good = None if good is not False else False
                         rep.inconc("D-INV %s: %s" % (key, val.reason), val.where)
         res[key] = good
         rep.analysed_item("%s interpreted on %d (shape, order) cases for reachability of its unreachable! arms" % (key, n))
